@@ -9,6 +9,28 @@ def run(tier):
     d = scratch("c07")
     streams = [0] if tier == "quick" else [0, 1, 2, 3]
     jobs = [(sg, s, 3 if tier == "quick" else 4, None, 64, "C07") for sg in range(1, 231) for s in streams]
+    # force non-identity normalizers to be selected: occupy a letter that some tabulated normalizer moves to an
+    # alphabetically earlier one (and that earlier letter as well, with another species)
+    from matid.data.symmetry_data import CHIRALITY_PRESERVING_EUCLIDEAN_NORMALIZERS as NORM
+
+    forced = 0
+    for sg in range(1, 231):
+        seen = set()
+        for n in NORM.get(sg, []):
+            p = n["permutations"]
+            moved = sorted(l for l in p if p[l] < l)
+            if not moved:
+                continue
+            pair = (moved[0], p[moved[0]])
+            if pair in seen:
+                continue
+            seen.add(pair)
+            if tier == "quick" and len(seen) > 2:
+                break
+            for s_ in ([0, 1] if tier == "quick" else [0, 1, 2, 3]):
+                jobs.append((sg, 10 + s_, 1, [pair[0], pair[1]], 96, "C07"))
+                forced += 1
+    run.notes["forced_normalizer_jobs"] = forced
     recs = symcommon.collect(run, jobs)
     symcommon.judge(run, recs, "C07", d, lambda r, c: (
         "C07 clause=%s sg=%d letters=%s p_index=%s" % (c, r["sg"], r["gen_letters"], r["pres"].get("p_index")),
